@@ -1,4 +1,5 @@
 import Netconan.Driver.Ip
+import Netconan.Driver.Jun
 /-! The model driver: one operation per line on stdin, one reply per line on stdout. -/
 namespace Netconan.Driver
 
@@ -9,6 +10,9 @@ def stepLine (st : St) (line : String) : St × String :=
   let ws := (line.trimAscii.toString.splitOn " ").filter (· != "")
   match ipCmd st.ips ws with
   | some (out, ips) => ({ st with ips := ips }, out)
+  | none =>
+  match junCmd ws with
+  | some out => (st, out)
   | none => (st, "bad-op")
 
 partial def loop (h : IO.FS.Stream) (out : IO.FS.Stream) (st : St) : IO Unit := do
